@@ -32,6 +32,15 @@ static void witness(const char *suite, const char *input, const char *expected, 
 {
    if (s_wit++ < 12) printf("W %s|%s|%s|%s|%s\n", suite, input, expected, observed, why);
 }
+/* the case in flight: a crash (wild table read, hardening assert) inside the code under test becomes a witness */
+static char cur_suite[16] = "cwrs", cur_case[2400] = "(start-up)";
+static void crash_handler(int sig)
+{
+   printf("W %s|%s|returns normally|%s|the implementation crashed on this input\n", cur_suite, cur_case,
+          sig == SIGABRT ? "abort() (celt_assert / hardening)" : sig == SIGSEGV ? "SIGSEGV (wild memory access)" : "fatal signal");
+   printf("S cases=%ld witnesses=%ld distinct=%ld\n", s_cases, s_wit + 1, s_distinct);
+   fflush(stdout); _exit(0);
+}
 static int spr_y(char *o, int cap, const int *y, int n)
 {
    int j, p = 0;
@@ -44,6 +53,7 @@ static int check_index(int n, int k, opus_uint32 i)
 {
    int y[MAXN], j; long sa = 0, sq = 0; opus_val32 yy; opus_uint32 back;
    char in[96], ob[2400], ys[2200];
+   snprintf(cur_case, sizeof(cur_case), "dec %d %d %lu", n, k, (unsigned long)i);
    yy = cwrsi(n, k, i, y);
    for (j = 0; j < n; j++) { sa += abs(y[j]); sq += (long)y[j] * y[j]; }
    back = icwrs(n, y);
@@ -73,12 +83,19 @@ static int check_coder(vrng *r, int n, int k)
    static unsigned char buf[4096];
    int ys[NV][MAXN], y2[MAXN], v, j; ec_enc enc; ec_dec dec;
    ec_enc_init(&enc, buf, sizeof(buf));
-   for (v = 0; v < NV; v++) { rand_y(r, ys[v], n, k); encode_pulses(ys[v], n, k, &enc); }
+   for (v = 0; v < NV; v++) {
+      int p;
+      rand_y(r, ys[v], n, k);
+      p = snprintf(cur_case, sizeof(cur_case), "enc %d ", k); spr_y(cur_case + p, (int)sizeof(cur_case) - p, ys[v], n);
+      encode_pulses(ys[v], n, k, &enc);
+   }
    ec_enc_done(&enc);
    if (ec_get_error(&enc)) return 0;
    ec_dec_init(&dec, buf, sizeof(buf));
    for (v = 0; v < NV; v++) {
-      long sq = 0; opus_val32 yy = decode_pulses(y2, n, k, &dec);
+      long sq = 0; opus_val32 yy;
+      { int p = snprintf(cur_case, sizeof(cur_case), "decode_pulses after enc %d ", k); spr_y(cur_case + p, (int)sizeof(cur_case) - p, ys[v], n); }
+      yy = decode_pulses(y2, n, k, &dec);
       for (j = 0; j < n; j++) sq += (long)ys[v][j] * ys[v][j];
       s_cases++;
       if (memcmp(ys[v], y2, n * sizeof(int)) != 0 || (long)yy != sq) {
@@ -187,6 +204,7 @@ static void check_icdf(const char *name, int idx, const unsigned char *t, int le
    static unsigned char buf[256];
    char in[128], ob[128]; int s, ok = 1;
    snprintf(in, sizeof(in), "icdf %s[%d] len=%d ftb=%u", name, idx, len, ftb);
+   strcpy(cur_suite, "icdf"); snprintf(cur_case, sizeof(cur_case), "%s", in);
    s_distinct++;
    if (len < 1 || t[0] >= (1u << ftb)) ok = 0;
    for (s = 1; s < len && ok; s++) if (t[s] >= t[s - 1]) ok = 0;
@@ -259,17 +277,20 @@ static void run_laplace(int level, vrng *r)
 {
    static unsigned char buf[8192];
    int lm, intra, b, t, rounds = level ? 60 : 8;
+   strcpy(cur_suite, "laplace");
    for (lm = 0; lm < 4; lm++) for (intra = 0; intra < 2; intra++) for (t = 0; t < rounds; t++) {
       int vals[21], got, bad = 0; ec_enc enc; ec_dec dec;
       ec_enc_init(&enc, buf, sizeof(buf));
       for (b = 0; b < 21; b++) {
          int mag = vchance(r, 70) ? (int)vbelow(r, 4) : (vchance(r, 80) ? (int)vbelow(r, 40) : (int)vbelow(r, 20000));
          vals[b] = vchance(r, 50) ? mag : -mag;
+         snprintf(cur_case, sizeof(cur_case), "enc fs=%d decay=%d value=%d", e_prob_model[lm][intra][2 * b] << 7, e_prob_model[lm][intra][2 * b + 1] << 6, vals[b]);
          ec_laplace_encode(&enc, &vals[b], e_prob_model[lm][intra][2 * b] << 7, e_prob_model[lm][intra][2 * b + 1] << 6);
       }
       ec_enc_done(&enc);
       ec_dec_init(&dec, buf, sizeof(buf));
       for (b = 0; b < 21 && !bad; b++) {
+         snprintf(cur_case, sizeof(cur_case), "decode after enc LM=%d intra=%d band=%d value=%d", lm, intra, b, vals[b]);
          got = ec_laplace_decode(&dec, e_prob_model[lm][intra][2 * b] << 7, e_prob_model[lm][intra][2 * b + 1] << 6);
          s_cases++;
          if (got != vals[b]) {
@@ -311,7 +332,9 @@ int main(int argc, char **argv)
    level = atoi(argv[1]); r.s = strtoull(argv[2], NULL, 10) * 0x9E3779B97F4A7C15ULL + 17;
    mode = opus_custom_mode_create(48000, 960, &err);
    if (!mode) return 2;
+   signal(SIGSEGV, crash_handler); signal(SIGABRT, crash_handler); signal(SIGBUS, crash_handler); signal(SIGFPE, crash_handler);
    run_pvq(level, &r);
+   strcpy(cur_suite, "cwrs"); snprintf(cur_case, sizeof(cur_case), "cache rows");
    run_cache();
    run_icdf();
    run_laplace(level, &r);
